@@ -130,6 +130,14 @@ theorem C12_blank_lines_between (k : Nat) (a b : List (List Char)) (st : List In
     (passT (a ++ List.replicate k [] ++ b) st).2 = (passT (a ++ b) st).2 :=
   passT_insert_blanks k a b st
 
+/-- The two combined, on the text the indentation pass works on (after tab expansion, `strip()` and the removal of
+trailing spaces): writing `k` extra newlines after any newline of the text changes neither the stack nor the
+markers and non-empty lines of the pre-parsed form. -/
+theorem C12_extra_newlines_between (k : Nat) (a b : List Char) (st : List Int) :
+    visible (passT (linesOf (a ++ '\n' :: (List.replicate k '\n' ++ b))) st).1 = visible (passT (linesOf (a ++ '\n' :: b)) st).1 ∧
+    (passT (linesOf (a ++ '\n' :: (List.replicate k '\n' ++ b))) st).2 = (passT (linesOf (a ++ '\n' :: b)) st).2 :=
+  passT_text_insert_newlines k a b st
+
 -- non-vacuity: a nested block split by two blank lines
 example : visible (passT ["a".toList, [], [], "  b".toList, "c".toList] [-1]).1
     = [.ind, .line "a".toList, .ind, .line "b".toList, .ded, .line "c".toList] := by decide +kernel
